@@ -118,6 +118,36 @@ def run(ctx):
                          sample={"scorer": name, "n": n, "p": p, "box": f"[{lo},{lo + cnt - 1}]^{k}", "accepted_rows": len(acc),
                                  "first_accepted": [list(r) for r in acc[:3]]})
                 ctx.count("scorer", name)
+                # ---- batches: several rows in one call, an invalid row hidden among valid ones (any position) ----
+                accset = set(acc)
+                rejected = [r for r in itertools.product(range(lo, lo + cnt), repeat=k) if r not in accset]
+                if acc and rejected:
+                    import random as _rnd
+                    brng = _rnd.Random(hash((name, n, p)) & 0xFFFF)
+                    for _ in range(6 if ctx.quick() else 20):
+                        good = [brng.choice(acc) for _ in range(brng.randint(2, 4))]
+                        kind_b = brng.choice(["all-valid", "first", "middle", "last", "negative-middle", "past-end-middle"])
+                        rows_b = list(good)
+                        if kind_b != "all-valid":
+                            pool = rejected
+                            if kind_b == "negative-middle":
+                                pool = [r for r in rejected if min(r) < 0 and all(b > a for a, b in zip(r, r[1:]))] or rejected
+                            if kind_b == "past-end-middle":
+                                pool = [r for r in rejected if max(r) > n and all(b > a for a, b in zip(r, r[1:]))] or rejected
+                            badrow = brng.choice(pool)
+                            pos = {"first": 0, "last": len(rows_b)}.get(kind_b, len(rows_b) // 2)
+                            rows_b.insert(pos, badrow)
+                        st, val = classify(sc, np.array(rows_b))
+                        ctx.count("batch", kind_b + ":" + st.split(":")[0])
+                        if st.startswith("other:") and "RuntimeError" not in st:
+                            ctx.violation(f"{name}: a batch of cuts {rows_b} (n={n}) raised {st} instead of ValueError / scores",
+                                          {"scorer": name, "n": n, "p": p, "X": X.tolist(), "cuts": [list(r) for r in rows_b], "exception": st},
+                                          {"scorer": name, "what": "exception class", "class": st.split(":")[1], "batch": kind_b})
+                            continue
+                        arg_cases.append(f"({kind_term(kind)}, {n}, (IntRows {k}%nat {coq_list([zlist(r) for r in rows_b])}), "
+                                         f"{'true' if st != 'ValueError' else 'false'})")
+                        arg_meta.append({"scorer": name, "n": n, "p": p, "X": X.tolist(), "arg_kind": "batch:" + kind_b, "cuts": [list(r) for r in rows_b], "impl": st})
+                        ctx.case({"s": name, "n": n, "p": p, "batch": rows_b}, nontrivial=True)
                 # ---- malformed stream ----
                 good = acc[len(acc) // 2] if acc else tuple(range(k))
                 mal = [
